@@ -495,32 +495,34 @@ Proof. vm_compute. reflexivity. Qed.
 
 (* ================================================================== the verdict on the model's own text *)
 (* With C16_verdict_on_model_text the verdict of the check on the text the model writes is decided
-   by the three clauses on the erased items.  The full statement would be
+   by the three clauses on the erased items.  The statement: that verdict is `ok`, or
+   `FAIL:unopened-valuation-account A` (F16), or `FAIL:closed-valuation-account A` (F16b) for a
+   valuation account A = Income:..., i.e. every violation the three clauses raise has the known
+   shape -- for EVERY journal the parser can produce (C16_model_verdict, hypothesis on the input:
+   C09's input_lex) and every valuation commodity that can be written into the option line.
 
-     Theorem C16_model_verdict : forall l v sds dl days,
-       parse_directives sds = MOk dl -> postings_syntactic dl -> journal_lex_b dl = true ->
-       commodity_lex_b v = true -> transcode_days l v sds = COk days ->
-       let es := erase_entries v (transcode_entries days []) in
-       Forall (fun x => v_known_shape x = true /\ (v_kind x = k_unopened_val \/ v_kind x = k_closed_val))
-              (beancount_check v es ++ complete_check sds es ++ mtm_check dl v es)
-       (* hence c16_verdict_mtm sds v (transcode days v) is `ok`, or `FAIL:unopened-valuation-account A`
-          (F16), or `FAIL:closed-valuation-account A` (F16b) for a valuation account A = Income:... *)
+   The pieces:
+   C16_violations_from_adjustments   mtm_check finds nothing (C16_ledger_mark_to_market); beancount_check
+       raises no order, unbalanced or commodity violation, and every violation it raises comes from a
+       posting of a VALUE ADJUSTMENT on an account that is not an asset or liability account -- the
+       Income:... account of F16/F16b (Proofs/BeancountVerdict.v part 4, Proofs/BeancountVerdictOpen.v);
+   C16_posting_violations_known_shape   check_posting classifies each of them as the known shape: the
+       verdict's adjusted_account reads "Adjust value of C in account A" back (C up to the first space),
+       A is an asset/liability name, the posting's account is valuation_name A, and A has an open
+       directive in force (C16_adjusted_account_open).  Proofs/BeancountKnownShape.v;
+   C16_complete_check_finds_nothing   every user transaction is found among the emitted ones, what
+       remains are value adjustments, at most one per day and description: Valuate's position map has
+       pairwise different keys, and different positions have different descriptions.
+       Proofs/TranscodeAdjust.v, Proofs/BeancountComplete.v;
+   C16_input_lexical   the side conditions, journal_lex_b and Spec/BeancountAdjLex.v journal_adj_lex_b
+       (on every posting after accrual expansion: account syntactic in the sense of C02/C03/C04, hence
+       determined by its name; commodity without space), hold of the parsed directives of every input
+       that satisfies input_lex.  Proofs/BeancountInputLex.v.
+   The second side condition is needed: C16_space_in_commodity_example. *)
+From Knut Require Import Spec.BeancountAdjLex Proofs.BeancountVerdictOpen Proofs.TranscodeAdjust Proofs.BeancountKnownShape
+     Proofs.BeancountComplete Proofs.PrintLex Proofs.PrintLexInput Proofs.BeancountInputLex Proofs.BeancountModelVerdict.
 
-   Proved below (C16_model_verdict_partial): mtm_check finds nothing (C16_ledger_mark_to_market);
-   beancount_check raises no order, unbalanced or commodity violation, and every violation it
-   raises is a posting violation (kind unopened, use-after-close, unopened-valuation-account or
-   closed-valuation-account) of a posting of a VALUE ADJUSTMENT on an account that is not an asset
-   or liability account -- i.e. on the Income:... account of F16/F16b (C16_chronological,
-   C16_balanced, C16_open_before_use, C16_adjusted_account_open carried to the reader's state:
-   Proofs/BeancountVerdict.v part 4, Proofs/BeancountVerdictOpen.v).
-   Not proved: that check_posting classifies each of these as the known shape (valuation_posting
-   parses "Adjust value of C in account A" back; needs commodities without space and account
-   segments without colon) and that complete_check = [] (every user transaction found, one
-   adjustment per day and description: needs the uniqueness of Valuate's position keys).  Both are
-   evaluated on every case on the binary's output, which is byte-identical to the model's text. *)
-From Knut Require Import Proofs.BeancountVerdictOpen.
-
-Theorem C16_model_verdict_partial : forall l v sds dl days,
+Theorem C16_violations_from_adjustments : forall l v sds dl days,
   parse_directives sds = MOk dl -> postings_syntactic dl -> journal_lex_b dl = true ->
   commodity_lex_b v = true -> transcode_days l v sds = COk days ->
   let es := erase_entries v (transcode_entries days []) in
@@ -538,18 +540,173 @@ Proof.
   split; [|split; [exact Hm|exact (beancount_check_model l v sds dl days Hp Hsyn Hj H)]].
   rewrite (C16_verdict_on_model_text l v sds dl days Hp Hj Hv H). fold es. rewrite Hm, app_nil_r. reflexivity.
 Qed.
-Print Assumptions C16_model_verdict_partial.
+Print Assumptions C16_violations_from_adjustments.
+
+(* (1) every violation beancount_check raises on the model's items has the known shape *)
+Theorem C16_posting_violations_known_shape : forall l v sds dl days,
+  parse_directives sds = MOk dl -> journal_lex_b dl = true -> journal_adj_lex_b dl = true ->
+  transcode_days l v sds = COk days ->
+  Forall (fun x => v_known_shape x = true /\ (v_kind x = k_unopened_val \/ v_kind x = k_closed_val))
+         (beancount_check v (erase_entries v (transcode_entries days []))).
+Proof. exact beancount_check_known. Qed.
+Print Assumptions C16_posting_violations_known_shape.
+
+(* behind it: what Valuate adds to the days Check passed on ([d3]: the builder's days after Sort,
+   ComputePrices, Check, which add no transaction).  Day by day: the date is kept; the transactions are
+   the day's transactions followed by adjustments [ts], each for a position (a, c) with a syntactic
+   asset/liability account and a commodity without space (adjustment_lex), with pairwise different
+   descriptions; all rewritten posting by posting (values filled in: txn_sim).  And every posting handed
+   to beancount.Transcode has a syntactic account and a commodity without space (day_good). *)
+Theorem C16_valuate_adjustments : forall l v sds dl days,
+  parse_directives sds = MOk dl -> journal_adj_lex_b dl = true -> transcode_days l v sds = COk days ->
+  exists d3, Forall2 (day_step no_extra) (b_days (builder_of dl)) d3 /\
+    Forall2 (fun d d' =>
+               d_date d' = d_date d /\
+               exists ts, Forall2 txn_sim (d_txns d ++ ts) (d_txns d') /\
+                          Forall (adjustment_lex (d_date d)) ts /\ NoDup (map t_desc ts)) d3 days /\
+    Forall day_good days.
+Proof. exact transcode_days_val. Qed.
+Print Assumptions C16_valuate_adjustments.
+
+(* (2) complete_check finds nothing on the model's items: no lost-transaction, no spurious-transaction,
+   no duplicated-adjustment *)
+Theorem C16_complete_check_finds_nothing : forall l v sds dl days,
+  parse_directives sds = MOk dl -> journal_adj_lex_b dl = true -> transcode_days l v sds = COk days ->
+  complete_check sds (erase_entries v (transcode_entries days [])) = [].
+Proof. exact complete_check_model. Qed.
+Print Assumptions C16_complete_check_finds_nothing.
+
+(* (3) the side conditions hold of the parsed directives of every input the parser can produce *)
+Theorem C16_input_lexical : forall sds dl,
+  input_lex sds -> parse_directives sds = MOk dl ->
+  journal_lex_b dl = true /\ journal_adj_lex_b dl = true.
+Proof. exact input_lex_journal. Qed.
+Print Assumptions C16_input_lexical.
+
+Theorem C16_adj_lex_is_syntactic : forall dl, journal_adj_lex_b dl = true -> postings_syntactic dl.
+Proof. exact journal_adj_lex_syntactic. Qed.
+Print Assumptions C16_adj_lex_is_syntactic.
+
+(* the three clauses together, on the parsed journal: the statement that was open *)
+Theorem C16_model_violations : forall l v sds dl days,
+  parse_directives sds = MOk dl -> journal_lex_b dl = true -> journal_adj_lex_b dl = true ->
+  transcode_days l v sds = COk days ->
+  let es := erase_entries v (transcode_entries days []) in
+  Forall (fun x => v_known_shape x = true /\ (v_kind x = k_unopened_val \/ v_kind x = k_closed_val))
+         (beancount_check v es ++ complete_check sds es ++ mtm_check dl v es).
+Proof. exact model_violations_known. Qed.
+Print Assumptions C16_model_violations.
+
+(* THE VERDICT, hypothesis on the input.  For every journal of syntax-level directives with years
+   0000..9999, account segments and commodities non-empty runs of letters and digits, descriptions
+   valid UTF-8 without a double quote (input_lex: what knut's parser guarantees of every journal it
+   has read, Proofs/PrintLexInput.v), every valuation commodity that can be written and read back
+   (commodity_lex_b: no newline, no double quote, stripNonAlphanum(V) not empty) and both settings of
+   the checker, if the model of the pipeline succeeds then the executable verdict of the check --
+   reader of the text, balanced, chronological, open-before-use, completeness, mark-to-market -- on
+   the text the model writes is `ok` or the rendering of a violation of the known shape. *)
+Theorem C16_model_verdict : forall l v sds days,
+  input_lex sds -> commodity_lex_b v = true -> transcode_days l v sds = COk days ->
+  c16_verdict_mtm sds v (transcode days v) = s_ok \/
+  exists x, (v_known_shape x = true /\ (v_kind x = k_unopened_val \/ v_kind x = k_closed_val)) /\
+            c16_verdict_mtm sds v (transcode days v) = render_violation x.
+Proof. exact model_verdict. Qed.
+Print Assumptions C16_model_verdict.
+
+(* the same with the side conditions on the parsed journal (bytes only; weaker than input_lex) *)
+Theorem C16_model_verdict_parsed : forall l v sds dl days,
+  parse_directives sds = MOk dl -> journal_lex_b dl = true -> journal_adj_lex_b dl = true ->
+  commodity_lex_b v = true -> transcode_days l v sds = COk days ->
+  c16_verdict_mtm sds v (transcode days v) = s_ok \/
+  exists x, (v_known_shape x = true /\ (v_kind x = k_unopened_val \/ v_kind x = k_closed_val)) /\
+            c16_verdict_mtm sds v (transcode days v) = render_violation x.
+Proof. exact model_verdict_parsed. Qed.
+Print Assumptions C16_model_verdict_parsed.
+
+(* and for the command: `knut transcode -v V FILE` with V of the parser's shape *)
+Theorem C16_model_verdict_cmd : forall l v sds text,
+  input_lex sds -> com_lex v -> transcode_cmd l (Some v) sds = COk text ->
+  c16_verdict_mtm sds v text = s_ok \/
+  exists x, (v_known_shape x = true /\ (v_kind x = k_unopened_val \/ v_kind x = k_closed_val)) /\
+            c16_verdict_mtm sds v text = render_violation x.
+Proof. exact model_verdict_cmd. Qed.
+Print Assumptions C16_model_verdict_cmd.
 
 (* the hypotheses hold of the witness of C16_valuation_open_refuted, and the one violation is the
    posting of the adjustment on Income:P *)
 Example C16_model_verdict_example :
   match parse_directives c16_witness, transcode_days true chf c16_witness with
   | MOk dl, COk days =>
-    Spec.LedgerSyntax.postings_syntactic_b dl = true /\ journal_lex_b dl = true /\
+    Spec.LedgerSyntax.postings_syntactic_b dl = true /\ journal_lex_b dl = true /\ journal_adj_lex_b dl = true /\
     map (fun x => (v_kind x, v_detail x, v_known_shape x))
         (beancount_check chf (erase_entries chf (transcode_entries days [])))
     = [(k_unopened_val, [73;110;99;111;109;101;58;80], true)] /\
     complete_check c16_witness (erase_entries chf (transcode_entries days [])) = []
+  | _, _ => False
+  end.
+Proof. vm_compute. repeat split; reflexivity. Qed.
+
+(* the input-level hypothesis is satisfiable: the witnesses are journals the parser can produce.  On
+   the first the verdict is F16's, on the second (no prices, no adjustment) it is `ok` *)
+From Coq Require Import Lia.
+From Knut Require Import Model.Utf8 Proofs.ScannerProofs Proofs.RoundTripBase Proofs.PrintWeave Proofs.PrintSem.
+Ltac c16_ascii_cls := apply (RoundTripBase.cls_ascii udec ScannerProofs.utf8_decoder_ok); repeat constructor; try lia; vm_compute; reflexivity.
+Ltac c16_seg := split; [c16_ascii_cls|discriminate].
+Ltac c16_acc0 := split; [discriminate|repeat (apply Forall_cons; [c16_seg|]); apply Forall_nil].
+Ltac c16_date := unfold PrintSem.date_printable; vm_compute; split; discriminate.
+
+Example C16_witness_input_lex : input_lex c16_witness /\ input_lex c16_trailing_zero_witness /\ com_lex chf.
+Proof.
+  split; [|split].
+  - unfold input_lex, c16_witness.
+    repeat (apply Forall_cons); try apply Forall_nil; cbn [sdir_lex st_date st_desc st_bookings st_targets st_accrual].
+    + split; [c16_date|c16_acc0].
+    + split; [c16_date|c16_acc0].
+    + split; [c16_date|]. split; c16_seg.
+    + split; [c16_date|]. split; c16_seg.
+    + split; [c16_date|]. split; [c16_ascii_cls|]. split; [discriminate|].
+      split; [|split; exact I]. apply Forall_cons; [|apply Forall_nil]. split; [c16_acc0|split; [c16_acc0|c16_seg]].
+  - unfold input_lex, c16_trailing_zero_witness.
+    repeat (apply Forall_cons); try apply Forall_nil; cbn [sdir_lex st_date st_desc st_bookings st_targets st_accrual].
+    + split; [c16_date|c16_acc0].
+    + split; [c16_date|c16_acc0].
+    + split; [c16_date|]. split; [c16_ascii_cls|]. split; [discriminate|].
+      split; [|split; exact I]. apply Forall_cons; [|apply Forall_nil]. split; [c16_acc0|split; [c16_acc0|c16_seg]].
+  - c16_seg.
+Qed.
+
+Example C16_model_verdict_values :
+  match transcode_cmd true (Some chf) c16_witness, transcode_cmd true (Some chf) c16_trailing_zero_witness with
+  | COk text1, COk text2 =>
+    c16_verdict_mtm c16_witness chf text1 = render_violation (mkViol k_unopened_val [73;110;99;111;109;101;58;80] true) /\
+    c16_verdict_mtm c16_trailing_zero_witness chf text2 = s_ok
+  | _, _ => False
+  end.
+Proof. vm_compute. split; reflexivity. Qed.
+
+(* ---- the condition "commodity without space" is needed (knut's parser guarantees it; the model's
+   structured directives do not): one share of "A B".  The journal satisfies postings_syntactic and
+   journal_lex_b, the pipeline succeeds, the ledger reads back -- and the verdict's adjusted_account
+   reads the commodity of "Adjust value of A B in account Assets:P" as "A", does not find "in account"
+   after it, and reports the posting on Income:P as a plain `unopened` (not of the known shape). *)
+Definition c16_space_witness : list sdirective :=
+  let acc s := acc_of_name s in
+  let P := [65;115;115;101;116;115;58;80] (* Assets:P *) in
+  let E := [69;113;117;105;116;121;58;69] (* Equity:E *) in
+  let ab := [65;32;66] in
+  let d0 := Date.of_civil 2020 1 1 in
+  [ SOpen d0 (acc P); SOpen d0 (acc E);
+    SPrice d0 ab (mkDec 100 0) chf;
+    SPrice (d0 + 2) ab (mkDec 110 0) chf;
+    STxn (mkStxn (d0 + 1) [66;117;121] [mkBooking (acc E) (acc P) (mkDec 1 0) ab] None None) ].
+
+Example C16_space_in_commodity_example :
+  match parse_directives c16_space_witness, transcode_days true chf c16_space_witness with
+  | MOk dl, COk days =>
+    Spec.LedgerSyntax.postings_syntactic_b dl = true /\ journal_lex_b dl = true /\ journal_adj_lex_b dl = false /\
+    roundtrip_b chf days = true /\
+    c16_verdict_mtm c16_space_witness chf (transcode days chf)
+    = render_violation (mkViol k_unopened [73;110;99;111;109;101;58;80] false)
   | _, _ => False
   end.
 Proof. vm_compute. repeat split; reflexivity. Qed.
